@@ -1068,6 +1068,10 @@ func main() {
 	for _, s := range []string{"function($x)<(>{$x}", "!é", "[1.䑁]", "function($x)<!>{$x}", "!", "~", "a!b", "1.", "1..2", "[1..2]", "1.é", "1.5.é", ".é", "!\xff", "~\xc3", "<\xe4\x91\x81", "1e\xe4\x91\x81", "", " ", "\n", "$", "$$", "a.", ".a", "a..b", "/", "a/", "a//", "/a", "a /b/ c", "a = /b/", "(/a/)", "[/a/,/b/i]", "$f(/a/)", "a ? /b/ : /c/", "{\"a\":/b/}", "a.b.c[d=1].e{f:g}^(h)", "Account.Order.Product[Price > 30].Description.Colour", "$sum(Account.Order.Product.(Price*Quantity))"} {
 		add(s)
 	}
+	// regressions for the parser repairs of the C04/C11 findings (regex flag after closers, sign in \u)
+	for _, s := range []string{"a^(b)/2", "a^(b) / 2 + c/d", "a^(b)/c/", "a^(b)/c/i", "a^(<b,>c)/2", "a^(b)^(c)/d", "function($x){$x}/2", "function($x){$x}/a/", "λ($x){$x}/2", "function($x)<n:n>{$x}/2", "|a|{}|/2", "|a|{},b|/2", "|a|{}|/b/", "$f(?/2)", "$f(?,/a/)", "$f(?/a/)", "$f(?)/2", "$f(?, ?)", "a^(b).c", "function($x){$x}(1)", "|a|{}| ~> $f", "$ ~> |a|{}|", "(/ab/)", "[/ab/]", "-/ab/", "{/a/:1}", "|/a/|{}|", "[1,/ab/]", "(a;/b/)", "\"\\u+123\"", "\"\\u-000\"", "\"\\u+12a\"", "\"\\u 123\"", "\"\\u12\"", "\"\\u12 4\"", "\"\\uD83D\\u+E00\"", "\"\\uD83D\\u-E00\"", "\"\\uD83D\\uDE00\"", "\"\\u00e9\"", "\"\\u00E9\"", "'\\u+123'", "\"\\u0x12\"", "\"\\u1_23\"", "\"\\uFFFF\"", "\"\\u0000\"", "\"a\\u+123b\""} {
+		add(s)
+	}
 	mark("regress", n0)
 
 	n0 = len(inputs)
